@@ -243,6 +243,8 @@ class Z3Solver:
         if not hasattr(self, "guard_cache"):
             self.guard_cache = {}
             self.guard_lemmas = 0
+            self.guard_tries = {}
+            self.guard_pre_len = {}
         pre = list(pre)
         pre_key = tuple(pre)
         memo: Dict[T, T] = {}
@@ -255,8 +257,10 @@ class Z3Solver:
             r = n if all(x is y for x, y in zip(new, ks)) else tm.rebuild(n, new)
             if r.op == "ite":
                 c = r.args[0]
-                key = (c, pre_key)
+                key = c  # preconditions only grow along a path, so earlier decisions stay valid
                 dec = self.guard_cache.get(key, "?")
+                if dec is None and self.guard_pre_len.get(key, -1) < len(pre) and self.guard_tries.get(key, 0) < 2:
+                    dec = "?"  # undecided under a smaller precondition: one more attempt
                 if dec == "?":
                     dec = None
                     guess = None
@@ -267,7 +271,9 @@ class Z3Solver:
                             guess = None
                     for val in ([guess] if guess is not None else [True, False]):
                         goal = tm.not_(c) if val else c
-                        status, _, _ = self.check(pre + [goal], timeout_ms=3000, kind="guard")
+                        self.guard_tries[key] = self.guard_tries.get(key, 0) + 1
+                        self.guard_pre_len[key] = len(pre)
+                        status, _, _ = self.check(pre + [goal], timeout_ms=1500, kind="guard")
                         self.guard_lemmas += 1
                         if status == "unsat":
                             dec = val
